@@ -323,8 +323,11 @@ def fixeddict(name, *entries, **kwargs):
     # Create all of the methods which will be added to the class
     __dict__ = {}
 
-    def __init__(self, *args, **kwargs):
-        dict.__init__(self, *args, **kwargs)
+    def __init__(*args, **kwargs):
+        # NB: As for dict, 'self' is positional-only so that a keyword
+        # argument named 'self' is treated as an (undeclared) key
+        self = args[0]
+        dict.__init__(*args, **kwargs)
 
         # Check for invalid names
         for name in self.keys():
@@ -362,8 +365,20 @@ def fixeddict(name, *entries, **kwargs):
 
     __dict__["setdefault"] = setdefault
 
-    def update(self, E=None, **F):
+    def update(*args, **F):
         # Using the naming convention defined by 'help(dict.setdefault)'
+        #
+        # NB: As for dict.update, 'self' and the optional mapping/iterable 'E'
+        # are positional-only so that keyword arguments named 'self' or 'E'
+        # are treated as (undeclared) keys like any other.
+        if not args:
+            raise TypeError("update() needs an instance to be called on")
+        if len(args) > 2:
+            raise TypeError(
+                "update expected at most 1 argument, got {}".format(len(args) - 1)
+            )
+        self = args[0]
+        E = args[1] if len(args) == 2 else None
         if E is not None:
             if hasattr(E, "keys"):
                 for k in E:
